@@ -298,7 +298,9 @@ class Src:
             if trait is None and tr_name is not None:
                 continue
             if trait is not None and tr_name != trait:
-                continue
+                # `Trait<Arg` selects among several impls of one generic trait (e.g. From<Key / From<Value)
+                if not ('<' in trait and tr is not None and re.sub(r'\s+', '', tr).startswith(re.sub(r'\s+', '', trait))):
+                    continue
             res.append((header, brace, match_close(mask, brace)))
         return res
 
